@@ -57,7 +57,8 @@ func (t *trace) Get() []string {
 // InjectedError lets a test hand an arbitrary error value to probes with outcome "inject".
 var InjectedError struct {
 	sync.Mutex
-	Err error
+	Err   error
+	Panic bool // the probe panics with Err instead of returning it
 }
 
 type foreignError struct{ msg string }
@@ -91,9 +92,14 @@ func OutcomeError(outcome string) error {
 		return fmt.Errorf("probe wrapped: %w", io.EOF)
 	case "inject":
 		InjectedError.Lock()
-		defer InjectedError.Unlock()
+		err, doPanic := InjectedError.Err, InjectedError.Panic
+		InjectedError.Unlock()
 
-		return InjectedError.Err
+		if doPanic {
+			panic(err)
+		}
+
+		return err
 	case "panic":
 		panic("probe panic")
 	case "panicerr":
